@@ -1,7 +1,7 @@
 (* CollectionsProof.v — proofs about Collections.v (model M) and CollectionsSpec.v (spec S). *)
 From stdpp Require Import gmap list.
 From Coq Require Import NArith ZArith Lia.
-Require Import DS.Collections DS.CollectionsSpec.
+Require Import DS.Collections DS.CollectionsSpec DS.CollectionsTables.
 
 (* ---- the take-out / put-back helpers ------------------------------------------------------- *)
 Lemma mutate_list_eq key st handler :
@@ -539,15 +539,26 @@ Proof.
   - intros h0 [w Hw]. cbn in Hw. apply HI. exists w. eapply lookup_weaken; eassumption.
 Qed.
 
+(* states reachable from the empty table by specification steps and by as-is array_concat steps
+   (that is, by everything the correspondence run executes) *)
 Inductive reachable : mstate -> Prop :=
   | reachable_init : reachable init
-  | reachable_step s c args : reachable s -> reachable (step_s c args s).2.
+  | reachable_step s c args : reachable s -> reachable (step_s c args s).2
+  | reachable_asis s args : reachable s -> reachable (concat_asis rnd args s).2.
+
+Lemma inv_ext s s' : hs s = hs s' -> draws s = draws s' -> Inv s -> Inv s'.
+Proof. unfold Inv. intros <- <-. auto. Qed.
 
 Lemma reachable_inv s : reachable s -> Inv s.
 Proof.
-  induction 1 as [|s c args R IH].
+  induction 1 as [|s c args R IH|s args R IH].
   - intros h [v Hv]. cbn in Hv. rewrite lookup_empty in Hv. discriminate.
   - unfold CollectionsSpec.step_s. apply apply_inv; [exact IH|apply spec_ok].
+  - unfold concat_asis. destruct (first_bad _ _ _) as [j|].
+    + cbn [snd]. eapply inv_ext; [| |exact IH]; reflexivity.
+    + set (v := HList _).
+      assert (IH' : Inv (MS (hs s) (draws s) None)) by (eapply inv_ext; [| |exact IH]; reflexivity).
+      exact (apply_inv (MS (hs s) (draws s) None) (SNew v) IH' I).
 Qed.
 
 Hypothesis rnd_inj : forall i j, rnd i = rnd j -> i = j.
@@ -729,3 +740,39 @@ Lemma F6_witness :
   (step_s rnd0 ord0 CArrayConcat [nope] s2).1 = Error ETrigger /\
   (concat_asis rnd0 [nope] s2).1 = Cont (Some (rnd0 1)).
 Proof. vm_compute. auto. Qed.
+
+(* ---- the table regenerated from the source agrees with the model's table --------------------- *)
+Lemma gen_table_ok : gen_table_check = true.
+Proof. vm_compute. reflexivity. Qed.
+
+(* with fewer arguments than the table says, every command refuses without looking at any handle *)
+Lemma short_args ord c args s :
+  (length args < cmd_min_args c)%nat -> is_short c (spec ord c args s) = true.
+Proof.
+  destruct c; destruct args as [|a0 [|a1 [|a2 rest]]]; cbn [cmd_min_args length]; intros H;
+    try lia; reflexivity.
+Qed.
+
+(* ---- array_concat as-is: the deviation is confined to the situation "an earlier array_concat
+        failed during validation" (stale <> None) ------------------------------------------------ *)
+Lemma first_bad_none st args i :
+  first_bad st args i = None <->
+  forallb (fun a => match look_list st a with Found _ => true | _ => false end) args = true.
+Proof.
+  revert i; induction args as [|a args IH]; intros i; cbn [first_bad forallb]; [tauto|].
+  unfold is_live_array. destruct (look_list st a); cbn [andb]; try (split; intros; discriminate).
+  apply IH.
+Qed.
+Lemma concat_asis_fresh rnd ord args s :
+  stale s = None ->
+  (concat_asis rnd args s).1 = (step_s rnd ord CArrayConcat args s).1 /\
+  hs (concat_asis rnd args s).2 = hs (step_s rnd ord CArrayConcat args s).2 /\
+  draws (concat_asis rnd args s).2 = draws (step_s rnd ord CArrayConcat args s).2.
+Proof.
+  intros E. unfold concat_asis, step_s. cbv beta iota zeta delta [spec]. rewrite E. cbn [default]. rewrite drop_0.
+  destruct (forallb _ args) eqn:F.
+  - apply first_bad_none with (i := 0%nat) in F. rewrite F. cbn. auto.
+  - destruct (first_bad (hs s) args 0) as [j|] eqn:G.
+    + cbn. auto.
+    + apply first_bad_none in G. congruence.
+Qed.
